@@ -1,6 +1,7 @@
 import Np.Proofs.MapCoef
 import Np.Model.Maps
 import Np.Proofs.Gather
+import Np.Proofs.ShapeFns
 /-! C09 — shape functions and indexing move whole polynomial elements like numpy: property theorems, for *every*
 index map (hence every shape, axis, index or section argument numpy accepts) -/
 namespace Np.Props.C09
@@ -64,5 +65,119 @@ theorem gatherOp_moves_elements (rc rn : Bool) (ops : List (Arr R)) (hw : ∀ a 
       idx.getD k.val 0 - 1 = blockOff ops t + i.val ∧ (gatherOp rc rn ops outShape idx).elem k = a.elem i) :=
   gatherOp_elem rc rn ops hw outShape idx k
 end exec
+
+/-! ### numpy's own index arithmetic, inside the model (`Np/Model/ShapeFns.lean`; the driver computes the gather lists
+of these functions itself, and the run compares them with what numpy does to an array of positions) -/
+section shapefns
+open Np.Shape Np.ShapeFns
+
+/-- a gather list produced by a shape function of one operand, handed to the executable gather, moves whole elements:
+output position `k` holds the operand's element at the listed position -/
+theorem single_gather_reads {R : Type} [CommRing R] [BEq R] [LawfulBEq R] (rc rn : Bool) (a : Arr R) (ha : a.WF)
+    (out idx : List Nat) (k : Fin (size out)) (p : Nat) (hk : idx[k.val]? = some p) (hp : p < size a.shape) :
+    (gatherOp rc rn [a] out (gatherIdx1 idx)).elem k = a.elem ⟨p, hp⟩ := by
+  have hget : (gatherIdx1 idx).getD k.val 0 = p + 1 := by
+    simp [gatherIdx1, List.getD, List.getElem?_map, hk]
+  rcases gatherOp_moves_elements rc rn [a] (by simpa using ha) out (gatherIdx1 idx) k with ⟨h0, _⟩ | ⟨t, b, hb, i, hi, he⟩
+  · rw [hget] at h0
+    rcases h0 with h0 | h0
+    · omega
+    · have : totalSize [a] = size a.shape := by simp [totalSize_eq_sum]
+      omega
+  · cases t with
+    | zero =>
+      simp only [List.getElem?_cons_zero, Option.some.injEq] at hb
+      subst hb
+      rw [hget] at hi
+      simp only [blockOff_zero, Nat.zero_add, Nat.add_sub_cancel] at hi
+      rw [he]
+      congr 1
+      exact Fin.ext hi.symm
+    | succ t => simp at hb
+
+/-- `numpy.transpose(a, perm)`: `none` exactly when `perm` is not a permutation of the axes; otherwise output
+multi-index `j` reads the input multi-index whose component on axis `c` is `j[position of c in perm]`, and the whole map
+is a permutation of the positions (no element lost or duplicated) -/
+theorem transpose_reads {shape perm out idx : List Nat} (h : transposeF shape perm = some (out, idx)) :
+    out = perm.map (fun a => shape.getD a 0) ∧ idx.Perm (List.range (size shape)) ∧
+    ∀ j, Valid out j →
+      idx[ravel out j]? = some (ravel shape ((List.range shape.length).map fun a => j.getD (perm.idxOf a) 0)) ∧
+      Valid shape ((List.range shape.length).map fun a => j.getD (perm.idxOf a) 0) :=
+  ⟨(transposeF_shape h).1, transposeF_perm h, fun _ hj => transposeF_spec h hj⟩
+
+/-- transposing a well-formed polynomial array through the executable gather: element `j` of the result *is* the
+element of the operand at the permuted multi-index -/
+theorem transpose_moves_elements {R : Type} [CommRing R] [BEq R] [LawfulBEq R] (rc rn : Bool) (a : Arr R) (ha : a.WF)
+    (perm out idx : List Nat) (h : transposeF a.shape perm = some (out, idx)) (j : List Nat) (hj : Valid out j) :
+    ∃ hp : ravel a.shape ((List.range a.shape.length).map fun c => j.getD (perm.idxOf c) 0) < size a.shape,
+      (gatherOp rc rn [a] out (gatherIdx1 idx)).elem ⟨ravel out j, ravel_lt_of_valid hj⟩ =
+        a.elem ⟨ravel a.shape ((List.range a.shape.length).map fun c => j.getD (perm.idxOf c) 0), hp⟩ := by
+  obtain ⟨h1, h2⟩ := transposeF_spec h hj
+  exact ⟨ravel_lt_of_valid h2, single_gather_reads rc rn a ha out idx ⟨ravel out j, ravel_lt_of_valid hj⟩ _ h1 _⟩
+
+/-- `numpy.reshape` (C order) keeps the flat order: the gather list is the identity -/
+theorem reshape_reads {shape new out idx : List Nat} (h : reshapeF shape new = some (out, idx)) :
+    size shape = size new ∧ out = new ∧ idx = List.range (size new) := reshapeF_eq h
+
+/-- `numpy.expand_dims` keeps the flat order as well -/
+theorem expand_dims_reads {shape out idx : List Nat} {axis : Nat} (h : expandDimsF shape axis = some (out, idx))
+    {j : List Nat} (hj : Valid out j) :
+    idx[ravel out j]? = some (ravel shape (j.eraseIdx axis)) ∧ Valid shape (j.eraseIdx axis) ∧
+    ravel shape (j.eraseIdx axis) = ravel out j := expandDimsF_spec h hj
+
+/-- `numpy.repeat(a, k, axis)`: output multi-index `j` reads `j` with its `axis` component divided by `k` -/
+theorem repeat_reads {shape out idx : List Nat} {k axis : Nat} (h : repeatF shape k axis = some (out, idx))
+    {j : List Nat} (hj : Valid out j) :
+    idx[ravel out j]? = some (ravel shape (j.set axis (j.getD axis 0 / k))) ∧
+    Valid shape (j.set axis (j.getD axis 0 / k)) := repeatF_spec h hj
+
+/-- `numpy.tile(a, reps)`: every component is taken modulo the operand's extent (after padding with leading axes) -/
+theorem tile_reads {shape reps out idx : List Nat} (h : tileF shape reps = some (out, idx))
+    {j : List Nat} (hj : Valid out j) :
+    ∃ x, idx[ravel out j]? = some (ravel shape x) ∧ Valid shape x ∧
+      ∀ a, a < shape.length →
+        x.getD a 0 = j.getD (max shape.length reps.length - shape.length + a) 0 % shape.getD a 0 := tileF_spec h hj
+
+/-- `numpy.diagonal(a, offset, ax1, ax2)`: the new last axis walks the diagonal, the other axes keep their order -/
+theorem diagonal_reads {shape out idx : List Nat} {offset : Int} {ax1 ax2 : Nat}
+    (h : diagonalF shape offset ax1 ax2 = some (out, idx)) {j : List Nat} (hj : Valid out j) :
+    ∃ x, idx[ravel out j]? = some (ravel shape x) ∧ Valid shape x ∧
+      x.getD ax1 0 = j.getD (shape.length - 2) 0 + (-offset).toNat ∧
+      x.getD ax2 0 = j.getD (shape.length - 2) 0 + offset.toNat ∧
+      ∀ a, a < shape.length → a ≠ ax1 → a ≠ ax2 →
+        x.getD a 0 = j.getD (a - (if ax1 < a then 1 else 0) - (if ax2 < a then 1 else 0)) 0 := diagonalF_spec h hj
+
+/-- `numpy.concatenate(ops, axis)`: output multi-index `j` reads operand `o` at `j` with the `axis` component reduced
+by the extents of the operands before `o` -/
+theorem concatenate_reads {shapes : List (List Nat)} {axis : Nat} {out : List Nat} {idx : List (Nat × Nat)}
+    (h : concatF shapes axis = some (out, idx)) {j : List Nat} (hj : Valid out j) :
+    ∃ o r, idx[ravel out j]? = some (o, ravel (shapes.getD o []) (j.set axis r)) ∧ o < shapes.length ∧
+      Valid (shapes.getD o []) (j.set axis r) ∧
+      j.getD axis 0 = ((shapes.take o).map fun s => s.getD axis 0).sum + r := concatF_spec h hj
+
+/-- `numpy.stack(ops, axis)`: all operands have one shape, the new axis selects the operand -/
+theorem stack_reads {shapes : List (List Nat)} {axis : Nat} {out : List Nat} {idx : List (Nat × Nat)}
+    (h : stackF shapes axis = some (out, idx)) :
+    ∃ s0, (∀ s ∈ shapes, s = s0) ∧ out = s0.take axis ++ shapes.length :: s0.drop axis ∧
+      ∀ j, Valid out j → idx[ravel out j]? = some (j.getD axis 0, ravel s0 (j.eraseIdx axis)) ∧
+        j.getD axis 0 < shapes.length ∧ Valid s0 (j.eraseIdx axis) := stackF_spec h
+
+/-- `numpy.swapaxes` and `numpy.moveaxis` are transpositions with an explicit axis list -/
+theorem swapaxes_reads {shape out idx : List Nat} {a b : Nat} (h : swapaxesF shape a b = some (out, idx)) :
+    out = (List.range shape.length).map (fun k => shape.getD (swapAxis a b k) 0) ∧
+    ∀ j, Valid out j →
+      idx[ravel out j]? = some (ravel shape ((List.range shape.length).map fun c => j.getD (swapAxis a b c) 0)) ∧
+      Valid shape ((List.range shape.length).map fun c => j.getD (swapAxis a b c) 0) := swapaxesF_spec h
+theorem moveaxis_reads {shape out idx : List Nat} {src dst : Nat} (h : moveaxisF shape src dst = some (out, idx)) :
+    out = (moveaxisPerm shape.length src dst).map (fun a => shape.getD a 0) ∧ idx.Perm (List.range (size shape)) ∧
+    ∀ j, Valid out j →
+      idx[ravel out j]? = some (ravel shape
+        ((List.range shape.length).map fun a => j.getD ((moveaxisPerm shape.length src dst).idxOf a) 0)) :=
+  ⟨(moveaxisF_spec h).1, moveaxisF_perm h, fun j hj => ((moveaxisF_spec h).2 j hj).1⟩
+
+/-- non-vacuity: numpy.transpose(arange(6).reshape(2,3)) and numpy.concatenate of a 2x2 and a 1x2 block -/
+example : transposeF [2, 3] [1, 0] = some ([3, 2], [0, 3, 1, 4, 2, 5]) := by decide
+example : concatF [[2, 2], [1, 2]] 0 = some ([3, 2], [(0, 0), (0, 1), (0, 2), (0, 3), (1, 0), (1, 1)]) := by decide
+end shapefns
 
 end Np.Props.C09
